@@ -289,6 +289,12 @@ def check(prop, tier, seed, t0):
         with ThreadPoolExecutor(max_workers=16) as ex:
             results = list(ex.map(run_one, plan(prop, tier, seed)))
         violations += report_failures(prop, tier, seed, results)
+    cs_stats = {}
+    if ok and prop == "C08":
+        # "... or added to a change set": the ledger of the changeset domain (instrumented amounts) belongs to C08 too
+        import dom_changeset
+        v, cs_stats = dom_changeset.ledger_pass(prop, tier, seed)
+        violations += v
     # evidence
     stats = {}
     for r in results:
@@ -326,6 +332,7 @@ def check(prop, tier, seed, t0):
         "branch_hits": {k: stats.get(k, 0) for k in ("reuses", "err_kills", "dead_access", "nested", "events", "destroyed", "faults", "leaked")},
         "ops_by_kind": {k[3:]: v for k, v in stats.items() if k.startswith("op_")},
         "runs": [r["label"] for r in results],
+        "changeset_ledger": cs_stats,
         "samples": samples,
         "exhaustive": False,
     }
@@ -339,6 +346,9 @@ def check(prop, tier, seed, t0):
 
 
 def replay(prop, path):
+    if "# domain changeset" in open(path).read():
+        import dom_changeset
+        return dom_changeset.replay(prop, path)
     LEDGER["on"] = bool(PROPS[prop].get("ledger"))
     ok, blog = vlib.build_harness([BIN])
     if not ok:
